@@ -4,7 +4,8 @@ C06 - wildcard and predicate steps select exactly the matching elements, in orde
 Lean: Model/XPath.lean (star / condition branches of _find), Props/C06.lean
 B stream : xp.get (get / first / item access) on selecting paths of every form
 C evaluator: list-comprehension oracle for P[*]/f, P/f, P[k=v]/f, P/k[text()=v]/../f, P[k!=v]/f, P[k~v]/f
-  (quoted and unquoted v), misses, first's single-match unwrapping; chained selections.
+  (quoted and unquoted v), misses, first's single-match unwrapping; chained selections P[k1 op v1]/items[k op v]/f
+  (nested list of per-parent selections, get / item access / repeated get, identity of the selected values).
 """
 import copy
 
@@ -15,30 +16,38 @@ from harness.props import xpath_common as X
 MANIFEST = dict(
     category="proof",
     technique="Lean 4 theorems over a hand-written model of the xpath engine + differential correspondence with the implementation",
-    text="Lean (model of n0dict._find with the fix patches C06-a and C06-c applied), for a list of dict records stored under a "
-         "plain key `name` of the root dict, every list length and every mix of present/absent fields: C06_star_partial "
-         "(`name[*]/f` and the shorthand `name/f` return, through get and item access, exactly [r[f] for r in rs if f in r] in "
-         "list order, the default / IndexError when that is empty, tree unchanged), C06_first_unwrap_partial + C06_firstOf_cases "
-         "(first returns the single match itself, the list for several, the default for none), C06_eq_partial, C06_ne_partial, "
-         "C06_contains_partial (`name[k=v]/f`, `name[k!=v]/f`, `name[k~v]/f`, operator written `=`/`==`/`~`/`~~`, literal bare or in "
-         "single or double quotes, the empty literal included: f of exactly the records that have k and whose k equals / differs "
-         "from / contains v; text fields compared as text, int fields as numbers), C06_text_form_equiv_partial "
-         "(`name/k[text() op v]/../f` returns what `name[k op v]/f` returns for get, item access and first), all instances of "
-         "C06_pred_partial. For a record list anywhere in the tree: C06_star_spelled (token level: for every token list that "
-         "spells the position of the list - plain keys, index steps in any spelling - _find on toks+['[*]',f] and toks+[f] finds "
-         "exactly that list comprehension) and C06_implicit_star_path_partial (`P/f` for the canonical path P of any position, "
-         "through get, item access and first). Proved by induction over the record list through the engine's fan-out loop, the condition branch, "
-         "the text() branch and the '..' step that re-resolves the found string from the root. Hypotheses: plain field names "
-         "(no path or operator characters, k not starting with `contains`, k not `text()`), plain literal (no blanks, quotes, "
-         "brackets, /, =, ~, *, ?, %; not true()/false()), no float value of k and a non-ASCII literal only against non-numeric k. "
-         "Stated, not proved (carried by the correspondence and the oracle evaluator): C06_star_stmt (the explicit `P[*]/f` "
-         "through get for an arbitrary path string P), C06_pred_stmt (the predicate forms for a record list at an arbitrary path), C06_chained_stmt (chained selections; refuted on the pinned tree by "
-         "the counter-example theorem C06_chained_cex, known finding C06-b). Positive examples for the two repaired findings "
-         "(C06_numeric_example, C06_empty_literal_example). The model of the resolver is compared with the real code on all "
-         "selecting forms at depth 0-3, with string, int, bool, float and None fields, missing fields, duplicates, occurring and "
-         "non-occurring literals, the empty literal; the statement (list-comprehension oracle, numeric fields compared as "
-         "numbers) is executed on the implementation.",
-    note="unsuppressed verdicts of the evaluator: every non-chained form; chained selections are the known finding C06-b.",
+    text="Lean (model of n0dict._find with the fix patches C06-a, C06-c, C06-b and C06-e applied), for the list of dict records at "
+         "ANY position of a dict-rooted tree (canonical path P of keys and indexes, as xpath() prints it), every list length and "
+         "every mix of present/absent fields: C06_star (`P[*]/f` and the shorthand `P/f` return, through get, item access and "
+         "first, exactly [r[f] for r in rs if f in r] in list order; the default / IndexError when that is empty; first unwraps a "
+         "single match - C06_firstOf_cases; tree unchanged), C06_pred (`P[k op v]/f` and `P/k[text() op v]/../f`, operator written "
+         "`=`/`==`/`!=`/`~`/`~~`, literal bare or in single or double quotes, the empty literal included: f of exactly the "
+         "records that have k and whose k passes the comparison, for get, item access and first - hence the two forms agree), "
+         "C06_eq_ne_contains (the three operators against the independent references: text fields compared as text, int fields "
+         "as numbers, `~` = substring), C06_chained (`P[k1 op v1]/items[k2 op v2]/f` returns, through get and item access, the "
+         "nested list of per-parent selections: for every outer record that passes the outer test, in order, the list of f of its "
+         "`items` records that pass the inner test; parents with no `items`, an empty `items` or no inner match are left out; the "
+         "default / IndexError when nothing is selected at all). The same for the paths written relative to the root without the "
+         "leading `/` when the list is stored under a key of the root (C06_star_partial, C06_pred_partial, C06_eq_partial, "
+         "C06_ne_partial, C06_contains_partial, C06_text_form_equiv_partial, C06_first_unwrap_partial), and at token level for "
+         "every token list that spells the position of the list - index steps in any spelling (C06_star_spelled). Proved by "
+         "induction over the record list through the engine's fan-out loop, the condition branch, the text() branch and the '..' "
+         "step: the found text of the walk (find_walk/SpellsF) is the canonical path of P[j]/k, '..' re-splits it without "
+         "stripping, drops the last piece and resolves P[j] again from the root (sel2_up_record); with fix C06-b it continues "
+         "with the canonical path of P[j], which is what makes the inner predicate of a chained selection come back to the right "
+         "parent. The tokenisation of every path text used is proved (sel2_tokenize: texts made of /key and [text] pieces). "
+         "Hypotheses: plain field names (no path or operator characters, k not starting with `contains`, k not `text()`), plain "
+         "literal (no blanks, quotes, brackets, /, =, ~, *, ?, %; not true()/false()), no float value of k and a non-ASCII "
+         "literal only against non-numeric k (model scope guard); for chained selections `items`, where an outer record has it, "
+         "is a list of dict records. No statement is left open; positive examples for the four repaired findings "
+         "(C06_numeric_example, C06_empty_literal_example, C06_chained_example, C06_empty_inner_example). Differential only: "
+         "first on chained selections (return_lists=False unwraps single matches on both levels), other spellings of P than the "
+         "canonical one for the predicate forms, list-rooted containers. The model of the resolver is compared with the real "
+         "code on all selecting forms and chained selections at depth 0-3, with string, int, bool, float and None fields, missing "
+         "fields, duplicates, occurring and non-occurring literals, the empty literal, empty inner lists; the statement "
+         "(list-comprehension oracle, numeric fields compared as numbers; nested per-parent lists for chained selections, also "
+         "through item access and on a repeated lookup) is executed on the implementation.",
+    note="unsuppressed verdicts of the evaluators: every form, chained selections included (no open finding).",
     design_ref="5/C06",
 )
 
@@ -393,6 +402,6 @@ def run(ctx):
     ctx.extra["forms"] = forms
     ctx.extra["assumptions"] = [
         "record fields are plain names; literals are taken from / absent from the data",
-        "theorems: record list under a plain key of the root; a list at a deeper path and chained selections are covered by B and C only",
-        "the implementation under test carries the fix patches C06-a and C06-c",
+        "theorems: the record list at any position (canonical path), chained selections with `items` a list of dict records; other spellings of the prefix, first() on chained selections and list roots are covered by B and C only",
+        "the implementation under test carries the fix patches C06-a, C06-c, C06-b and C06-e",
     ]
